@@ -147,10 +147,18 @@ def check(case, ctx):
     for pert in case["perturbations"]:
         kind = pert[0]
         if kind == "perm":
-            ks = list(o.keys())
-            o2 = {k: copy.deepcopy(o[k]) for k in reversed(ks)}
-            if ks:
+            # an equal dictionary built in another order, at every nesting level (sections, sections inside lists)
+            def rev(x):
+                if isinstance(x, dict):
+                    return {k: rev(x[k]) for k in reversed(list(x))}
+                if isinstance(x, list):
+                    return [rev(i) for i in x]
+                return copy.deepcopy(x)
+            o2 = rev(o)
+            if o:
                 n_out += 1
+            if any(isinstance(U.dotted_get(o, k), dict) and len(U.dotted_get(o, k)) >= 2 for k in K):
+                labels.add("reported-section-reordered")
         elif kind in ("set", "del"):
             key = pert[1]
             if outside(key, K):
@@ -235,8 +243,15 @@ def perturbations(draw):
 
 @st.composite
 def cases(draw, prof):
-    return {"spec": draw(specgen.specs(prof)), "options": draw(U.option_dicts(p_present=draw(st.sampled_from([0.6, 0.85])))),
-            "perturbations": draw(perturbations())}
+    spec = draw(specgen.specs(prof))
+    if draw(st.integers(0, 3)) == 0:
+        # a whole section is read (and so reported): its members' order must not matter
+        sec = {"k": "opt", "key": draw(st.sampled_from(["S", "R.U", "R"])), "default": {"t": "const", "v": None}}
+        spec = dict(spec, root={"k": "tuple", "items": [spec["root"], sec]})
+    perts = draw(perturbations())
+    if ["perm"] not in perts:
+        perts.append(["perm"])
+    return {"spec": spec, "options": draw(U.option_dicts(p_present=draw(st.sampled_from([0.6, 0.85])))), "perturbations": perts}
 
 
 # ---- hash-seed part ------------------------------------------------------------------------------------
